@@ -14,6 +14,9 @@ from tradingenv.rewards import RewardSimpleReturn, RewardLogReturn, LogReturn, R
 
 LEVEL = "exploration"
 ACTIONS = [(0.5, 0.25), (-0.25, 0.75), (0.0, 1.0)]
+# targets in numbers of contracts whose differences are not exact in binary: repeating one leaves a float-dust imbalance,
+# which is a recorded (and charged) trade like any other
+LOT_ACTIONS = [(0.4, 0.1), (1.7, 0.3), (0.7, 1.1)]
 REWARDS = ["simple", "log", "shaped", "pnl"]
 RATES = [0.02, 0.05, 0.0, 0.03, 0.01, 0.04, 0.02]
 
@@ -70,6 +73,9 @@ def build(cfg):
     reset_clock()
     uni, L, delay, reward, rates, fees, nbars = cfg
     threshold = 0.0
+    lots = uni.endswith(":lots")
+    if lots:
+        uni = uni[:-5]
     if uni.endswith(":thr"):
         # a large no-trade threshold: repeating a decision trades nothing, so entries WITHOUT trades follow entries with trades
         uni, threshold = uni[:-4], 0.2
@@ -96,7 +102,7 @@ def build(cfg):
     sink = []
     rec = Rec(sink)
     bf = BrokerFees(markup=0.01 if rates else 0.0, interest_rate=RATE, proportional=(1.0 / 64 if fees else 0.0), fixed=(1.0 if fees else 0.0))
-    env = TradingEnv(BoxPortfolio(cs, -1.0, 1.5, margin=threshold), transmitter=tr, state=rec, latency=L, steps_delay=delay,
+    env = TradingEnv(BoxPortfolio(cs, -1.0, 1.5, margin=threshold) if not lots else BoxPortfolio(cs, -3.0, 3.0, as_weights=False), transmitter=tr, state=rec, latency=L, steps_delay=delay,
                      initial_cash=cash, broker_fees=bf, reward=make_reward(reward))
     return env, sink, cash
 
@@ -160,7 +166,7 @@ def run_sequence(env, sink, cash, cfg, seq):
     frozen = []     # what each entry reported when it was created; entries must not change afterwards
     for k, a in enumerate(seq):
         try:
-            o, r, done, info = env.step(np.array(ACTIONS[a]))
+            o, r, done, info = env.step(np.array((LOT_ACTIONS if uni.endswith(":lots") else ACTIONS)[a]))
         except Exception as ex:
             return msgs + ["step %d raised %r" % (k, ex)]
         if len(tr) != k + 1:
@@ -327,6 +333,9 @@ def units(tier):
                         if tier == "quick" and uni == "chain" and reward in ("log", "pnl") and L:
                             continue
                         out.append((uni, L, delay, reward, rates, fees, nbars))
+    # contract-count targets with a fixed fee: float-dust trades
+    for delay in (0, 1):
+        out.append(("spot+fut:lots", 0, delay, "simple", False, True, 6))
     # a no-trade threshold: idle entries in the middle of an episode
     for delay in (0, 1):
         for reward in ("simple", "log"):
